@@ -518,6 +518,10 @@ func (env *Env) evalCall(e *Expr) *Val {
 			cs = append(cs, Forall([]*Term{x}, [][]*Term{{Select(cur, x)}}, Implies(Lt(x, env.old.ac), Eq(Select(cur, x), Select(old, x)))))
 		}
 		return mathBool(And(cs...))
+	case "string": // string(x): view a ghost integer (e.g. the content of a String-kind reflect value) as a string id
+		if len(e.Args) == 1 {
+			return scalar(types.Typ[types.String], env.intTerm(e.Args[0]))
+		}
 	case "tagof": // dynamic type tag of an interface value, as an integer (0 for nil)
 		v := env.eval(e.Args[0])
 		if v.K != VIface {
@@ -607,14 +611,25 @@ func (env *Env) resolveType(e *Expr) types.Type {
 	switch x.Kind {
 	case EIdent:
 		name = x.Name
+		var bt types.Type
 		if t, ok := convTypes[name]; ok {
-			return t
+			bt = t
 		}
-		if name == "string" {
-			return types.Typ[types.String]
+		switch name {
+		case "string":
+			bt = types.Typ[types.String]
+		case "bool":
+			bt = types.Typ[types.Bool]
+		case "float32":
+			bt = types.Typ[types.Float32]
+		case "float64":
+			bt = types.Typ[types.Float64]
 		}
-		if name == "bool" {
-			return types.Typ[types.Bool]
+		if bt != nil {
+			if ptr {
+				return types.NewPointer(bt)
+			}
+			return bt
 		}
 		if env.pkg != nil {
 			obj = env.pkg.Scope().Lookup(name)
